@@ -482,18 +482,20 @@ def bigsum(n, body_at, tag="bigsum"):
     return U(tag, RealS, lift(n), z3.If(z3.And(0 <= R0, R0 < lift(n)), body_at(R0), ZERO))
 
 
+_DELTA_NEG = set()  # summands for which no Kronecker-delta structure could be established (always sound to reuse)
+
+
 def delta_sum(cx, n, body_at):
     """Sum_{r<n} body_at(r) when the body vanishes off a single index rho (a Kronecker delta): = body_at(rho).
     The delta structure is CHECKED by z3 (not assumed); otherwise the sum stays symbolic."""
     r = z3.Int("R0!canon")
     t = body_at(r)
+    key = (z3.simplify(lift(n)).sexpr(), t.sexpr())
+    if key in _DELTA_NEG:
+        return bigsum(n, body_at)
     # a sum over exactly one index
-    s1 = z3.Solver()
-    s1.set("timeout", 2000)
-    for h in cx.pc:
-        s1.add(h)
-    s1.add(lift(n) != 1)
-    if s1.check() == z3.unsat:
+    # (decided on the quantifier-free part of the path condition: prefix sums of concrete-length lists are unfolded)
+    if not cx.feasible(lift(n) != 1):
         return z3.substitute(t, (r, z3.IntVal(0)))
     cands = []
     for a in _atoms(t):
@@ -515,6 +517,7 @@ def delta_sum(cx, n, body_at):
         s.add(0 <= r, r < lift(n), r != rho, t != 0)
         if s.check() == z3.unsat:
             return z3.If(z3.And(0 <= rho, rho < lift(n)), z3.substitute(t, (r, rho)), ZERO)
+    _DELTA_NEG.add(key)
     return bigsum(n, body_at)
 
 
